@@ -159,7 +159,7 @@ inductive Call where
   | format (out : List Char)
   | memory (s : List Char)
   | reps (c : Char) (n : Nat)
-  deriving Repr, Inhabited
+  deriving Repr, Inhabited, DecidableEq
 
 def Call.bytes : Call → List Char
   | .format o => o
@@ -607,58 +607,69 @@ def doN (ps : PS) (tp : List Char) (st : DS) : Option DS :=
     | .mpqOut :: as => if t = 'Q' then some ({ st with ap := as, stores := st.stores ++ [Store.mpq r 1] }.sync) else none
     | _ => none
 
+/-- outcome of one character inside a `%` sequence -/
+inductive Step where
+  | fail                              -- outside the modelled subset / undefined by the manual
+  | cont (mode : Mode) (st : DS)      -- go on with the next character
+  deriving Repr, Inhabited
+
+def Step.ofOpt (m : Mode) : Option DS → Step
+  | some st => .cont m st
+  | none => .fail
+
+/-- the `switch (fchar)` of doprnt.c:239-620 for one character `c` of a `%` sequence; `st0` is the state
+    before `c` is appended to the pending text. -/
+def specStep (old : Bool) (c : Char) (ps : PS) (tp : List Char) (st0 : DS) : Step :=
+  let st := { st0 with pending := c :: st0.pending }
+  if ps.inNum ∧ isDigit c then
+    .cont (.spec (ps.setValue (ps.getValue * 10 + digitVal c)) tp) st
+  else
+  let ps := { ps with inNum := false }
+  if c = 'd' ∨ c = 'i' ∨ c = 'u' then Step.ofOpt .text (doInteger old ps tp 10 st)
+  else if c = 'o' then Step.ofOpt .text (doInteger old ps tp 8 st)
+  else if c = 'x' then Step.ofOpt .text (doInteger old ps tp 16 st)
+  else if c = 'X' then Step.ofOpt .text (doInteger old ps tp (-16) st)
+  else if c = 'c' then
+    match popInt st.ap with | some (_, as) => .cont .text { st with ap := as } | none => .fail
+  else if c = 's' ∨ c = 'p' then
+    match st.ap with | _ :: as => .cont .text { st with ap := as } | [] => .fail
+  else if c = 'm' ∨ c = '%' then .cont .text st
+  else if c = 'n' then Step.ofOpt .text (doN ps tp st)
+  else if c = 'F' ∨ c = 'j' ∨ c = 'L' ∨ c = 'N' ∨ c = 'q' ∨ c = 'Q' ∨ c = 't' ∨ c = 'z' ∨ c = 'Z' then
+    .cont (.spec { ps with type := c } tp) st
+  else if c = 'h' then .cont (.spec { ps with type := if ps.type ≠ 'h' then 'h' else 'H' } tp) st
+  else if c = 'l' then .cont (.spec { ps with type := if ps.type ≠ 'l' then 'l' else 'L' } tp) st
+  else if c = 'M' then
+    -- :440-452 with _LONG_LONG_LIMB: the `M` becomes `ll` in the copy of the format; type = 'L'
+    .cont (.spec { ps with type := 'L' } tp) { st0 with pending := 'l' :: 'l' :: st0.pending }
+  else if c = '#' ∨ c = '+' ∨ c = ' ' ∨ c = '-' ∨ c = '0' then .cont (.spec (stepFlag old ps c) tp) st
+  else if c = '\'' then .cont (.spec ps tp) st
+  else if c = '.' then .cont (.spec (stepDot ps) tp) st
+  else if c = '*' then
+    match popInt st.ap with
+    | some (n, as) => .cont (.spec (stepStar old ps (wrapSigned 32 n)) tp) { st with ap := as }
+    | none => .fail
+  else if isDigit c then .cont (.spec ({ ps with inNum := true }.setValue (digitVal c)) tp) st
+  else if c = 'a' ∨ c = 'A' ∨ c = 'e' ∨ c = 'E' ∨ c = 'f' ∨ c = 'g' ∨ c = 'G' then .fail   -- floats: see doprntF
+  else .cont .text st         -- :612-615 default: "something invalid", goto next
+
 /-- `__gmp_doprnt` main loops (:190-640), one character at a time.  `none` = outside the modelled
     subset or undefined by the manual (argument of the wrong kind, unterminated `%`, float conversions). -/
 def run (old : Bool) : List Char → Mode → DS → Option DS
   | [], .text, st =>
-    -- :622-624  if (*last_fmt != '\0') DOPRNT_FORMAT (last_fmt, last_ap);
+    -- :625-626  if (*last_fmt != '\0') DOPRNT_FORMAT (last_fmt, last_ap);
     if st.pending.isEmpty then some st else
       match libcFormat st.pending.reverse st.lastAp with
       | some out => some (st.emit [.format out])
       | none => none
-  | [], .spec _ _, _ => none       -- :232-234 `fchar == '\0'`: the outer strchr then starts past the terminator
+  | [], .spec _ _, _ => none       -- :236-237 `fchar == '\0'`: the outer strchr then starts past the terminator
   | c :: cs, .text, st =>
     if c = '%' then run old cs (.spec {} st.pending) { st with pending := c :: st.pending }
     else run old cs .text { st with pending := c :: st.pending }
   | c :: cs, .spec ps tp, st0 =>
-    let st := { st0 with pending := c :: st0.pending }
-    if ps.inNum ∧ isDigit c then
-      run old cs (.spec (ps.setValue (ps.getValue * 10 + digitVal c)) tp) st
-    else
-    let ps := { ps with inNum := false }
-    if c = 'd' ∨ c = 'i' ∨ c = 'u' then
-      match doInteger old ps tp 10 st with | some st => run old cs .text st | none => none
-    else if c = 'o' then
-      match doInteger old ps tp 8 st with | some st => run old cs .text st | none => none
-    else if c = 'x' then
-      match doInteger old ps tp 16 st with | some st => run old cs .text st | none => none
-    else if c = 'X' then
-      match doInteger old ps tp (-16) st with | some st => run old cs .text st | none => none
-    else if c = 'c' then
-      match popInt st.ap with | some (_, as) => run old cs .text { st with ap := as } | none => none
-    else if c = 's' ∨ c = 'p' then
-      match st.ap with | _ :: as => run old cs .text { st with ap := as } | [] => none
-    else if c = 'm' ∨ c = '%' then run old cs .text st
-    else if c = 'n' then
-      match doN ps tp st with | some st => run old cs .text st | none => none
-    else if c = 'F' ∨ c = 'j' ∨ c = 'L' ∨ c = 'N' ∨ c = 'q' ∨ c = 'Q' ∨ c = 't' ∨ c = 'z' ∨ c = 'Z' then
-      run old cs (.spec { ps with type := c } tp) st
-    else if c = 'h' then run old cs (.spec { ps with type := if ps.type ≠ 'h' then 'h' else 'H' } tp) st
-    else if c = 'l' then run old cs (.spec { ps with type := if ps.type ≠ 'l' then 'l' else 'L' } tp) st
-    else if c = 'M' then
-      -- :438-450 with _LONG_LONG_LIMB: the `M` becomes `ll` in the copy of the format; type = 'L'
-      run old cs (.spec { ps with type := 'L' } tp) { st0 with pending := 'l' :: 'l' :: st0.pending }
-    else if c = '#' ∨ c = '+' ∨ c = ' ' ∨ c = '-' ∨ c = '0' then run old cs (.spec (stepFlag old ps c) tp) st
-    else if c = '\'' then run old cs (.spec ps tp) st
-    else if c = '.' then run old cs (.spec (stepDot ps) tp) st
-    else if c = '*' then
-      match popInt st.ap with
-      | some (n, as) => run old cs (.spec (stepStar old ps (wrapSigned 32 n)) tp) { st with ap := as }
-      | none => none
-    else if isDigit c then
-      run old cs (.spec ({ ps with inNum := true }.setValue (digitVal c)) tp) st
-    else if c = 'a' ∨ c = 'A' ∨ c = 'e' ∨ c = 'E' ∨ c = 'f' ∨ c = 'g' ∨ c = 'G' then none   -- floats: not modelled here
-    else run old cs .text st         -- :614-617 default: "something invalid", goto next
+    match specStep old c ps tp st0 with
+    | .fail => none
+    | .cont m st => run old cs m st
 
 structure DoprntResult where
   calls : List Call
